@@ -1,5 +1,6 @@
 """C15 — constructors accept valid geometry and reject invalid geometry; never keep or modify caller arrays."""
 import itertools
+import json
 import warnings
 
 import numpy as np
@@ -20,8 +21,8 @@ RULE = ("vertex lists classified by an exact integer oracle on their generating 
         "duplicates, < 3 vertices, bad shapes, one vertex lifted off the plane by > 1 % of the diameter, explicit "
         "normals +-n (any length) and tilted >= 0.1 rad; convex position (depth > 1e-3) vs one interior point deeper "
         "than 1e-3 diameters for ConvexPolygon/ConvexSpheropolygon (ALL permutations for n <= 6, random ones above) and "
-        "ConvexPolyhedron/ConvexSpheropolyhedron (gen.convex_solid), plus < 4 points, duplicate points, nan / inf "
-        "coordinates (flat, collinear, point-on-face/edge sets observed only); radii/axes positive, 0, negative, nan; "
+        "ConvexPolyhedron/ConvexSpheropolyhedron (gen.convex_solid), plus < 4 points, duplicate points, flat and collinear "
+        "sets, nan / inf coordinates (point-on-face/edge sets observed only); a fixed corpus of the inputs of repaired defects; radii/axes positive, 0, negative, nan; "
         "rounding radii 0, positive, negative, nan; caller-array hygiene for all ten classes x container kinds (list, "
         "tuple, float64 / float32 / int64 ndarray, strided and negative-stride views, Fortran order, read-only; (N,2) and "
         "(N,3); non-unit normals; faces as nested lists, lists of arrays, one 2-D array): byte-for-byte snapshots, "
@@ -34,8 +35,9 @@ ASSUMPTIONS = [
     "the O(n^2) edge-pair predicate Spec.simple is proved over R to BE the text-book definition (no two non-adjacent "
     "edges share a point, adjacent edges share exactly their vertex: simple_iff_simple_polygon); the Bentley-Ottmann "
     "sweep is tied to it only by the differential runs of this check, and only off the decision boundary: cycles "
-    "EXACTLY on it (a vertex on a far edge, collinear overlap, a zero-width spike) get ValueError, AssertionError or "
-    "are accepted by the sweep depending on rounding - they are generated, their outcome is recorded "
+    "EXACTLY on it (a vertex on a far edge, collinear overlap, a zero-width spike) get ValueError or are accepted "
+    "depending on rounding (the sweep's internal AssertionError is caught since b73b691 and modelled as an external "
+    "flag of the model) - they are generated, their outcome is recorded "
     "(coverage.input_distribution 'observed:boundary-*') and not judged",
     "a (nearly) straight FIRST corner is valid input (a straight angle is no decision boundary of simplicity): "
     "exactly collinear first three vertices reproduce the known finding Polygon.__init__:rejects-valid:straight-first-corner, "
@@ -47,11 +49,12 @@ ASSUMPTIONS = [
     "Qhull (vertex count of the hull) and rowan.mapping.kabsch (alignment with z) are parameters of the model; their "
     "results are fed to the model in the correspondence runs",
     "3-D convex position is certified by gen.in_convex_position (scipy hulls with margins), not by the Lean spec",
-    "flat / collinear point sets and points exactly on a face / edge of the hull sit on ConvexPolyhedron's decision "
-    "boundary: outcome recorded and compared with the model (fed Qhull's own verdict), not judged; fewer than four "
-    "points and infinite coordinates are clearly invalid: ValueError is demanded (known findings wrong-exception:*)",
-    "'the caller's arrays' are ndarrays (the property's word): Python lists of ints passed as faces are kept by "
-    "Polyhedron too but are not judged",
+    "points exactly on a face / edge of the hull sit on ConvexPolyhedron's decision boundary: outcome recorded and "
+    "compared with the model (fed Qhull's own verdict), not judged; fewer than four points, duplicate points, flat and "
+    "collinear sets, nan and infinite coordinates are no polyhedra: ValueError is demanded (f256559)",
+    "cycles EXACTLY on the decision boundary of simplicity are not judged for accept / reject, but whatever they raise "
+    "must be a ValueError (b73b691)",
+    "'the caller's arrays' are ndarrays (the property's word); since b62a6dc Polyhedron also copies list faces",
 ]
 
 CLAUSES = [
@@ -64,6 +67,7 @@ CLAUSES = [
     ("The provided vertices do not form a convex polygon", "convex"),
     ("The vertices do not define a convex polygon", "convex"),
     ("Input vertices must be a convex set", "convex"),
+    ("Input vertices do not define a three-dimensional convex polyhedron", "hull"),
     ("adius must be greater than or equal to zero", "radius"),
     ("Radius must be greater than zero", "radius"),
     ("a must be greater than zero", "a"),
@@ -184,7 +188,7 @@ def model_polygon(ctx, case, v, normal, ptol, test_simple=True):
     ndim, ncols, rows = r3
     ntok = normal_tokens(normal)
     try:
-        r = ctx.driver.F("c15.polygon", ndim, ncols, L(rows), ntok, float(ptol), 0, L([]))
+        r = ctx.driver.F("c15.polygon", ndim, ncols, L(rows), ntok, float(ptol), 0, L([]), 0)
     except ModelRaise as e:
         kind = e.kind
         if kind in ("ValueError:normal", "ValueError:coplanar") and near_boundary(ctx, ncols, rows, ntok, ptol):
@@ -200,10 +204,31 @@ def model_polygon(ctx, case, v, normal, ptol, test_simple=True):
         warnings.simplefilter("ignore")
         aligned, _ = pg._align_points_by_normal(n_model, V)
     try:
-        r = ctx.driver.F("c15.polygon", ndim, ncols, L(rows), ntok, float(ptol), 1, L([a for a in aligned]))
+        r = ctx.driver.F("c15.polygon", ndim, ncols, L(rows), ntok, float(ptol), 1, L([a for a in aligned]),
+                         1 if sweep_asserts(aligned) else 0)
     except ModelRaise as e:
         return e.kind, n_model
     return "ok", np.array(r[0:3])
+
+
+def sweep_asserts(aligned):
+    """the EXTERNAL of the model: does the Bentley-Ottmann sweep fail one of its internal assertions on the vertices as
+    `_is_simple` prepares them (x, y of the aligned points, centred, divided by the largest |coordinate|)?"""
+    from coxeter.extern.bentley_ottmann import poly_point_isect
+    v = np.asarray(aligned, dtype=np.float64)[:, :2]
+    v = v - np.mean(v, axis=0)
+    extent = np.max(np.abs(v))
+    if extent > 0:
+        v = v / extent
+    try:
+        with warnings.catch_warnings():
+            warnings.simplefilter("ignore")
+            poly_point_isect.isect_polygon(v)
+        return False
+    except AssertionError:
+        return True
+    except Exception:  # noqa: BLE001   (anything else is for the comparison with the implementation to show)
+        return False
 
 
 def near_boundary(ctx, ncols, rows, ntok, ptol):
@@ -250,12 +275,18 @@ def eval_polygon(ctx, case):
             if (impl[0] == "AssertionError" and why == "crossing"
                     and case.get("info", {}).get("kind") in BOUNDARY_KINDS):
                 # the notch families have collinear disjoint edges; in almost-axis-aligned planes the sweep trips over
-                # them (known finding) — kept apart from AssertionErrors on any other kind of crossing cycle
+                # them (repaired by b73b691: _is_simple catches the AssertionError) — kept apart from AssertionErrors on
+                # any other kind of crossing cycle
                 sig += ":sweep-assertion:collinear-edges"
             ctx.fail(sig, "Polygon raised %s instead of ValueError" % impl[0], case, [impl[0]])
     else:
-        # exactly ON the decision boundary (outside the property's quantifier): outcome recorded, not judged
+        # exactly ON the decision boundary (outside the property's quantifier): accept / reject is recorded, not judged —
+        # but whatever is raised must be a ValueError ("either an object or ValueError" has no quantifier)
         ctx.count("observed:%s:%s" % (why, "accepted" if impl[0] == "ok" else impl[0]))
+        if impl[0] not in ("ok", "ValueError"):
+            ctx.fail("Polygon.__init__:wrong-exception:boundary",
+                     "Polygon raised %s instead of ValueError on a touching / overlapping cycle" % impl[0], case,
+                     [impl[0]])
     obj = impl[1] if impl[0] == "ok" else None
     check_caller(ctx, "Polygon", case, V, sV,
                  [("vertices", getattr(obj, "_vertices", None)), ("normal", getattr(obj, "_normal", None))], "vertices")
@@ -282,10 +313,6 @@ def eval_polygon(ctx, case):
                 ctx.fail("Spec.sameTurns:oracle-mismatch", "a star polygon {n/k} must turn the same way everywhere",
                          case, [])
     if expect == "observe":
-        return
-    if expect == "reject" and impl[0] not in ("ok", "ValueError"):
-        # an exception escaping from inside the sweep (reported above) is nothing the decision model can mirror
-        ctx.count("skip:model-comparison-after-wrong-exception")
         return
     # ------------- B: model decision
     m = model_polygon(ctx, case, case["vertices"], case.get("normal"), ptol)
@@ -814,7 +841,7 @@ def eval_convex_polyhedron(ctx, case):
             # (a spheropolyhedron's vertex checks ARE ConvexPolyhedron's: one signature for both)
             ctx.fail("%s.__init__:wrong-exception:%s" % ("ConvexPolyhedron" if case.get("degenerate") else cls, why),
                      "%s raised %s instead of ValueError" % (cls, impl[0]), case, [impl[0]])
-    else:       # flat / collinear sets: on the decision boundary, outcome recorded only
+    else:       # a point exactly ON the hull's boundary: outcome recorded only
         ctx.count("observed:%s:%s:%s" % (cls, why, "accepted" if impl[0] == "ok" else impl[0]))
     check_caller(ctx, cls, case, V, sV, [("vertices", getattr(poly, "_vertices", None))], "vertices")
     if poly is not None and isinstance(V, np.ndarray):
@@ -1407,9 +1434,9 @@ def hygiene_cases(ctx, reps):
 
 
 def degenerate_cases(ctx, reps):
-    """ConvexPolyhedron / ConvexSpheropolyhedron on input that can never be a polyhedron: fewer than four points,
-    duplicate points, a point on a face / on an edge, non-finite coordinates (clearly invalid: ValueError demanded);
-    and — observed and compared with the model only, they sit on the decision boundary — flat and collinear sets."""
+    """ConvexPolyhedron / ConvexSpheropolyhedron on input that is no polyhedron: fewer than four points, duplicate
+    points, non-finite coordinates, flat and collinear sets (ValueError demanded since f256559 made that the contract);
+    a lattice point exactly on a face / an edge of an integer box is observed and compared with the model only."""
     rng = ctx.rng
     for _ in range(reps):
         for why in ("too-few-points", "duplicate-point", "point-on-face", "point-on-edge", "nan", "inf",
@@ -1434,12 +1461,10 @@ def degenerate_cases(ctx, reps):
             elif why == "flat":
                 p2, _ = gen.c15_convex_polygon(rng, n=int(rng.integers(4, 9)))
                 v = np.c_[np.round(p2 * 64), np.zeros(len(p2))]
-                expect = "observe"
             else:
                 d = rng.integers(-4, 5, size=3)
                 d[0] = d[0] or 1
                 v = np.outer(np.arange(5), d).astype(float) + rng.integers(-3, 4, size=3)
-                expect = "observe"
             if why in ("point-on-face", "point-on-edge"):
                 expect = "observe"      # ON the hull's boundary: not margin-separated
             case = {"kind": "convexpolyhedron", "expect": expect, "why": why, "degenerate": True,
@@ -1448,6 +1473,35 @@ def degenerate_cases(ctx, reps):
                 case["radius"] = float(rng.integers(0, 3))
             ctx.count("convexpolyhedron:degenerate:" + why)
             yield case
+
+
+# minimised corpus: inputs on which a defect was found (repaired since; must be reported again should it return)
+CORPUS = [
+    # b73b691: a spike pushed through an edge (margin 7.7e-3), collinear disjoint edges, almost-axis-aligned plane:
+    # the sweep fails `assert(event.in_sweep == False)`; before the fix the AssertionError escaped from Polygon(...)
+    {"kind": "polygon", "expect": "reject", "why": "crossing", "corpus": "sweep-assertion",
+     "info": {"kind": "tjunction", "n": 7, "clockwise": None},
+     "embed": {"mode": "neartilt"},
+     "p2": [[-176.0, -368.0], [-336.0, -368.0], [-214.76253773689004, 19.712386789329894], [-352.0, -368.0], [-384.0, -368.0], [-256.0, 16.0], [-48.0, 16.0]],
+     "vertices": [[-3080.69095072315, -1301.410314031698, -342.3690569513654], [-3080.69095308547, -1141.4103140317052, -342.36900839450425], [-3468.403338084786, -1262.6477820191737, -342.36909644876835], [-3080.690953321702, -1125.4103140317059, -342.3690035388181], [-3080.690953794166, -1093.4103140317075, -342.3689938274459], [-3464.690951904307, -1221.4103197012544, -342.3690834431774], [-3464.690948833291, -1429.4103197012448, -342.3691465670969]]},
+    # exactly touching: vertex (1,0) on the edge (0,0)-(3,0); AssertionError before b73b691
+    {"kind": "polygon", "expect": "observe", "why": "boundary-touch", "corpus": "touch-assertion",
+     "info": {"kind": "touch", "n": 5}, "embed": {"mode": "n2"},
+     "p2": [[0, 0], [3, 0], [3, 2], [1, 0], [0, 2]], "vertices": [[0, 0], [3, 0], [3, 2], [1, 0], [0, 2]]},
+    # three points can never be a polyhedron; QhullError before f256559
+    {"kind": "convexpolyhedron", "expect": "reject", "why": "too-few-points", "degenerate": True, "corpus": "three-points",
+     "vertices": [[0, 0, 0], [1, 0, 0], [0, 1, 0]]},
+    # the caller's 2-D faces array was kept (row views) before b62a6dc
+    {"kind": "hygiene", "cls": "Polyhedron", "expect": "accept", "corpus": "faces-array2d",
+     "vertices": [[0, 0, 0], [1, 0, 0], [0, 1, 0], [0, 0, 1]], "vertices_kind": "list",
+     "faces": [[0, 2, 1], [0, 1, 3], [0, 3, 2], [1, 2, 3]], "faces_kind": "array2d"},
+]
+
+
+def corpus_cases(ctx):
+    for case in CORPUS:
+        ctx.count("corpus:" + case["corpus"])
+        yield json.loads(json.dumps(case))
 
 
 # --------------------------------------------------------------------------- driver
@@ -1502,6 +1556,7 @@ def is_simple_cases(ctx, n):
 def run(ctx):
     b = ctx.budget
     streams = [
+        corpus_cases(ctx),
         polygon_cases(ctx, b(70, 1200), b(45, 800), b(40, 600)),
         is_simple_cases(ctx, b(250, 2500)),
         hygiene_cases(ctx, b(1, 12)),
